@@ -175,6 +175,10 @@ class VerifyAttrs(object):
                 intent = "inout"
             # XXX - Do hidden arguments need intent?
         else:
+            if not isinstance(intent, str):
+                raise RuntimeError(
+                    "{}: intent attribute must have a value: in, out or inout".format(
+                        getattr(node, "linenumber", "?")))
             intent = intent.lower()
             if intent in ["in", "out", "inout"]:
                 meta["intent"] = intent
